@@ -156,24 +156,24 @@ def ground_version(hyps, goal, skolems, extra_cands=()):
 
 
 _qc = {}
+_probe = None
 
 
 def has_q(t):
+    """does the term contain a quantifier (C-level probe, cached by AST id)"""
+    global _probe
     i = t.get_id()
-    if i in _qc:
-        return _qc[i]
-    r = False
-    stack, seen = [t], set()
-    while stack:
-        x = stack.pop()
-        if x.get_id() in seen:
-            continue
-        seen.add(x.get_id())
-        if z3.is_quantifier(x):
-            r = True
-            break
-        stack.extend(x.children())
-    _qc[i] = r
+    r = _qc.get(i)
+    if r is None:
+        if _probe is None:
+            _probe = z3.Probe("has-quantifiers")
+        if not z3.is_bool(t):
+            r = False
+        else:
+            g = z3.Goal()
+            g.add(t)
+            r = _probe(g) != 0.0
+        _qc[i] = r
     return r
 
 
